@@ -180,9 +180,12 @@ fn part_a(acc: &mut Acc) {
             faults.push(Fault::ChunkSignature(n, k)); // k == n: the final zero-length chunk
         }
     }
-    let cases: Vec<(Fault, bool)> = faults.iter().flat_map(|f| [(f.clone(), false), (f.clone(), true)]).collect();
-    par_items(acc, &cases, |a, ci, (fault, prior)| {
-        let id = || format!("fault/{fault:?}/prior={prior}");
+    // transport framings of the same body: as built; an empty frame before every frame; 1-byte frames; and (chunk-signed
+    // bodies) a frame boundary right after every chunk header line, where the chunk decoder hands on an empty piece
+    let framings = ["", "empty-frames", "1-byte-frames", "cut-after-chunk-headers"];
+    let cases: Vec<(Fault, bool, &'static str)> = faults.iter().flat_map(|f| framings.iter().flat_map(move |fr| [(f.clone(), false, *fr), (f.clone(), true, *fr)])).filter(|(f, _, fr)| *fr != "cut-after-chunk-headers" || matches!(f, Fault::ChunkSignature(..))).collect();
+    par_items(acc, &cases, |a, ci, (fault, prior, framing)| {
+        let id = || if framing.is_empty() { format!("fault/{fault:?}/prior={prior}") } else { format!("fault/{fault:?}/prior={prior}/{framing}") };
         if !a.selected(&id) {
             return;
         }
@@ -191,6 +194,7 @@ fn part_a(acc: &mut Acc) {
         let st = store(*prior, None);
         let svc = service(&st.root);
         let scope = Scope::new(AK, &DATE[..8], "us-east-1", "s3");
+        let mut header_ends: Vec<usize> = Vec::new();
         let (req, steps, expect_success): (Req, Vec<Step>, bool) = match fault {
             Fault::None | Fault::IoErrorAfter(..) | Fault::BadChecksum(_) | Fault::GoodChecksum(_) | Fault::DeclaredLengthTooLong => {
                 let declared = if matches!(fault, Fault::DeclaredLengthTooLong) { new.len() + 7 } else { new.len() };
@@ -240,16 +244,39 @@ fn part_a(acc: &mut Acc) {
                 let bad = chunks[*k].sig.replacen(|c: char| c.is_ascii_hexdigit(), if chunks[*k].sig.starts_with('0') { "1" } else { "0" }, 1);
                 chunks[*k].header = format!("{:x};chunk-signature={}\r\n", chunks[*k].data.len(), bad).into_bytes();
                 let body = c08::encoded(&chunks);
+                let mut pos = 0;
+                for c in &chunks {
+                    header_ends.push(pos + c.header.len());
+                    pos += c.bytes().len();
+                }
                 let mut r = up.req.clone();
                 r.set_header("content-length", &body.len().to_string());
                 (r, vec![Step::Data(body)], false)
             }
         };
+        let steps: Vec<Step> = match *framing {
+            "empty-frames" => steps.into_iter().flat_map(|s| [Step::Data(vec![]), s]).collect(),
+            "1-byte-frames" => steps.into_iter().flat_map(|s| match s { Step::Data(d) => d.chunks(1).map(|c| Step::Data(c.to_vec())).collect::<Vec<_>>(), other => vec![other] }).collect(),
+            "cut-after-chunk-headers" => steps.into_iter().flat_map(|s| match s {
+                Step::Data(d) => {
+                    let mut out = Vec::new();
+                    let mut from = 0;
+                    for &e in header_ends.iter().filter(|e| **e < d.len()) {
+                        out.push(Step::Data(d[from..e].to_vec()));
+                        from = e;
+                    }
+                    out.push(Step::Data(d[from..].to_vec()));
+                    out
+                }
+                other => vec![other],
+            }).collect(),
+            _ => steps,
+        };
         let out = crate::svc::call(&svc, &req, body_from_steps(steps));
         let status = out.resp().map(|r| r.status.as_u16());
         let tmps = tmp_files(&st.root);
         let read = later_read_with(&st.fs, None);
-        let ctxv = json!({"fault": format!("{fault:?}"), "prior_object": prior, "response": out.verdict()});
+        let ctxv = json!({"fault": format!("{fault:?}"), "framing": framing, "prior_object": prior, "response": out.verdict()});
         if expect_success {
             let ok = status == Some(200) && read.as_deref() == Ok(new.as_slice());
             a.outcome(if ok { "honest upload stored" } else { "HONEST UPLOAD NOT STORED" });
@@ -851,7 +878,7 @@ pub fn run(ctx: &Ctx) -> (Acc, Report) {
     }
     let rep = Report {
         level: "fault_enumeration",
-        rule: format!("(a) PutObject through S3Service::call with s3s-fs behind it: body I/O error after k of n frames for n in {{1,2,4}}, k in 0..n; wrong and right checksum for CRC32, CRC32C, SHA-1, SHA-256; corrupted signature in chunk k of a 1-, 2-, 3-chunk chunk-signed body (incl. the final chunk); each with the key absent and present; writes whose final rename / directory step fails (a directory where the object should go, a file where a directory is needed). (b) every abandon point: the request future dropped after every step p, both while the submitted file-system call is still queued and after it has completed; (c) every crash point: the tree copied after every step and restarted with FileSystem::new; for writes {:?}. (d) all interleavings at file-system-call granularity of two writers (10 B vs 9000 B) and of writer + reader; two writers + reader and three writers with at most {} preemption(s); all interleavings of two writers to different objects (same key in two buckets, same file name in two directories, two keys). Oracle: a later read returns the previous state or one complete version - content and user metadata of the same version -, the reader receives one complete version, the final content is one writer's bytes, no .tmp.* file remains. Distinct by id.", if ctx.tier == Tier::Thorough { "put x4, put+checksum+metadata, copy-object, complete-multipart (5 MiB + 4 B)" } else { "put x3 sizes/framings, put+checksum+metadata, copy-object (content + metadata)" }, ctx.tier.pick(2, 3)),
+        rule: format!("(a) PutObject through S3Service::call with s3s-fs behind it: body I/O error after k of n frames for n in {{1,2,4}}, k in 0..n; wrong and right checksum for CRC32, CRC32C, SHA-1, SHA-256; corrupted signature in chunk k of a 1-, 2-, 3-chunk chunk-signed body (incl. the final chunk); each with the key absent and present and under 3-4 transport framings (as built, an empty frame before every frame, 1-byte frames, a frame boundary right after every chunk header line); writes whose final rename / directory step fails (a directory where the object should go, a file where a directory is needed). (b) every abandon point: the request future dropped after every step p, both while the submitted file-system call is still queued and after it has completed; (c) every crash point: the tree copied after every step and restarted with FileSystem::new; for writes {:?}. (d) all interleavings at file-system-call granularity of two writers (10 B vs 9000 B) and of writer + reader; two writers + reader and three writers with at most {} preemption(s); all interleavings of two writers to different objects (same key in two buckets, same file name in two directories, two keys). Oracle: a later read returns the previous state or one complete version - content and user metadata of the same version -, the reader receives one complete version, the final content is one writer's bytes, no .tmp.* file remains. Distinct by id.", if ctx.tier == Tier::Thorough { "put x4, put+checksum+metadata, copy-object, complete-multipart (5 MiB + 4 B)" } else { "put x3 sizes/framings, put+checksum+metadata, copy-object (content + metadata)" }, ctx.tier.pick(2, 3)),
         exhaustive: true,
         extra: json!({"granularity": "one step = one task runs from one file-system await to the next (tokio blocking pool of one thread, gated)"}),
         assumptions: vec![
